@@ -1322,6 +1322,22 @@ func c18GenBatch(c *Ctx, root string, nParsers, nLexers int) []*c18Gen {
 	}
 	serial := 0
 	kinds := map[string]int{}
+	// directed: a WIDE grammar (one state with more than 40 lookahead terminals and an @error production): long
+	// table rows, so that anything that reorganises or caches per row is exercised
+	{
+		var alts []string
+		for i := 0; i < 40; i++ {
+			alts = append(alts, fmt.Sprintf("K%d SEMI", i))
+		}
+		ws := ParseGSpec("s = item*; item = " + strings.Join(alts, " | ") + " | @e SEMI")
+		for i, p := range GenerateAll(root, []string{"w0000"}, []string{ws.Lox()}, []string{ws.GoSource("w0000")}, false) {
+			if p.OK && i == 0 {
+				kinds["parser+error"]++
+				out = append(out, &c18Gen{Name: p.Name, Kind: "parser+error", GSpec: ws, Pkg: p})
+				nParsers++
+			}
+		}
+	}
 	small := GenOpts{MaxTokens: 4, MaxRules: 4, MaxProds: 3, MaxTerms: 4, Sugar: true, Errors: true, Prec: true}
 	for attempt := 0; attempt < 8 && (len(out) < nParsers || (len(kinds) < 4 && nParsers >= 4)); attempt++ {
 		var specs []*GSpec
